@@ -734,6 +734,17 @@ def emit(mod, opts):
                     bs.append(ord(raw[j])); j += 1
             out.append(f"static unsigned char g_{cname(g)}[{m.group(1)}] = {{" + ",".join(map(str, bs)) + "};")
         else:
+            m3 = re.search(r'(?:constant|global) \[(\d+) x i(\d+)\] (\[(.*)\]|zeroinitializer)', src)
+            if m3:
+                cnt, bits = int(m3.group(1)), int(m3.group(2)); nb = bits // 8
+                vals = [int(x) for x in re.findall(r'i\d+ (-?\d+)', m3.group(4) or "")] if m3.group(4) else [0] * cnt
+                vals = (vals + [0] * cnt)[:cnt]
+                bs = []
+                for v in vals:
+                    v &= (1 << bits) - 1
+                    bs += [(v >> (8 * k)) & 255 for k in range(nb)]
+                out.append(f"static unsigned char g_{cname(g)}[{cnt * nb}] __attribute__((aligned(16))) = {{" + ",".join(map(str, bs)) + "};")
+                continue
             m2 = re.search(r'(?:constant|global) (i(\d+)) (-?\d+)', src)
             if m2:
                 nb = int(m2.group(2)) // 8; v = int(m2.group(3)) & ((1 << (nb * 8)) - 1)
